@@ -236,6 +236,11 @@ func runC20(c *Ctx) {
 	c20Encoded(c)
 	c20Extra(c)
 	c20ErrorFormatWired(c)
+	if q := c.P.Pkg("private/bufpkg/bufanalysis"); q != nil {
+		c20PositionsClamped(c, q)
+		c20FormatConstant(c, q)
+	}
+	c20ExitCodeOwn(c)
 	c20ExitCodeSurvives(c)
 	c20GroupingKeepsOrder(c)
 	// the printers' own write errors are what turns "annotations were printed" (exit 100) into an operational failure:
